@@ -82,3 +82,9 @@ package job
 //@   ensures [C11] status-from-task: result.Status == jobtasks.taskRefOf(task).Status && result.RetryIndex == jobtasks.taskRefOf(task).RetryIndex
 //@   ensures [C11] finish-time-stable: existing != nil && !existing.FinishTimestamp.IsZero() && !jobtasks.taskRefOf(task).FinishTimestamp.IsZero()
 //@        ==> execution.tsSame(result.FinishTimestamp, existing.FinishTimestamp)
+
+// ---- task.go -------------------------------------------------------------------------------------------------------------
+//@ pure taskNameOf(jobName string, index tasks.TaskIndex) string = sprintf("%v-%v-%v", jobName, parallel.hashOf(index.Parallel), index.Retry)
+
+//@ func GenerateTaskName
+//@   ensures [C08,C09,C14] name-is-a-function-of-job-index-retry: result1 == nil ==> result0 == taskNameOf(name, index)
